@@ -85,7 +85,7 @@ def r4_ends(prog, rep: Report, cf: CacheFacts):
                   scenario="c[1],c[2],c[3] stored in cache(3); c[1] looked up; c[4] stored: the victim must be 2, but a "
                            "lookup/store that does not refresh recency makes 1 the victim")
     # victim end
-    f = cf.setitem
+    f = cf.setitem_v
     victims = []
     for n in walk_own(f.node):
         if isinstance(n, ast.Assign) and len(n.targets) == 1 and isinstance(n.targets[0], ast.Name):
@@ -134,16 +134,30 @@ def r6_payload_layout(prog, rep: Report, cf: CacheFacts):
     rep.ok("C06.R6", f, "writer", f"payload is a tuple with key at [{kpos}] and value at [{vpos}]")
     payload = cf.lf.payload
 
-    def payload_index(e) -> Optional[int]:
-        # <node>.data[i]  or  d[i] where d iterates the list payloads
+    def payload_index(e, flow=None) -> Optional[int]:
+        # <node>.data[i]  or  d[i] where d iterates the list payloads; or a name bound by unpacking a payload:
+        #   key, value = node.data        for key, value in self.list
         if isinstance(e, ast.Subscript) and isinstance(e.slice, ast.Constant) and isinstance(e.slice.value, int):
             return e.slice.value
+        if isinstance(e, ast.Name) and flow is not None:
+            idx = set()
+            for d in flow.defs_of(e):
+                if d.index is not None and len(d.index) == 1 and isinstance(d.index[0], int) and isinstance(d.value, ast.expr) \
+                        and (src(d.value).endswith("." + payload) or cf.is_list(d.value, cf.iter) or cf.is_list(d.value, cf.getitem)
+                             or cf.is_list(d.value, cf.setitem)):
+                    idx.add(d.index[0])
+                else:
+                    return None
+            if len(idx) == 1:
+                return idx.pop()
         return None
 
     g = cf.getitem
     rep.fn(g)
     rets = returns_of(g.node)
-    idx = [payload_index(r.value) for r in rets if r.value is not None]
+    from ..flow import Flow
+    gflow = Flow(g.node)
+    idx = [payload_index(r.value, gflow) for r in rets if r.value is not None]
     if not idx or None in idx:
         rep.unrec("C06.R6", g, "lookup-returns-value", "lookup does not return <payload>[const]")
     else:
@@ -155,7 +169,7 @@ def r6_payload_layout(prog, rep: Report, cf: CacheFacts):
         if isinstance(n, ast.Delete):
             for t in n.targets:
                 if isinstance(t, ast.Subscript) and cf.is_dict(t.value, f) and not (isinstance(t.slice, ast.Name) and t.slice.id == k):
-                    i = payload_index(t.slice)
+                    i = payload_index(t.slice, Flow(f.node))
                     if i is None:
                         rep.unrec("C06.R6", f, "evicts-victim-key", f"evicted key expression {src(t.slice)} unrecognised")
                     else:
@@ -165,6 +179,14 @@ def r6_payload_layout(prog, rep: Report, cf: CacheFacts):
     it = cf.iter
     idxs = [payload_index(n) for n in ast.walk(it.node) if isinstance(n, ast.Subscript) and isinstance(n.ctx, ast.Load)]
     idxs = [i for i in idxs if i is not None]
+    if not idxs:
+        # for key, _value in self.list: ... key ...   (unpacking instead of subscripting)
+        iflow = Flow(it.node)
+        for n in ast.walk(it.node):
+            if isinstance(n, ast.Name) and isinstance(n.ctx, ast.Load):
+                i = payload_index(n, iflow)
+                if i is not None:
+                    idxs.append(i)
     if not idxs:
         rep.unrec("C06.R6", it, "iter-yields-key", "__iter__ does not read payload[const]")
     else:
